@@ -170,7 +170,7 @@ THEOREMS = {
     "rel": [T + "varRel_eq", T + "optRel_eq"], "relm": [T + "optRel_eq"],
     "reln": [T + "optRelNullR_eq", T + "optRelNullL_eq"], "relv": [T + "optRelValR_eq", T + "optRelValL_eq"],
     "conv": [T + "convAssign_refines_partial", T + "convAssign_fallback_counterexample", T + "convCtor_refines", T + "step_refines_partial",
-             T + "run_refines_partial", T + "optional_refines", T + "select_eq"],
+             T + "run_refines_partial", T + "optional_refines", T + "optional_convCtor_refines", T + "select_eq"],
     "get_if": [T + "getIf_eq"], "value_or": [T + "valueOr_eq", T + "valueOrCat_eq", T + "expValueOr_eq", T + "expValueOrCat_eq"],
     "and_then": [T + "andThen_eq", T + "expAndThen_eq"],
     "or_else": [T + "orElse_eq", T + "orElseCat_eq", T + "expOrElse_eq"],
@@ -613,8 +613,6 @@ CORRESPONDENCE_ONLY = [
     "emplace<T> / get_if<T> / holds_alternative<T> by type: index_of<T> is compile-time; the model uses the index (for a repeated "
     "alternative type the driver answers `nc`, as both libraries do)",
     "return values of emplace (reference to the new value) and of visit (the visitor's result): compared on every run",
-    "optional(optional<U>) converting CONSTRUCTOR: executed on the model as `_var{nullopt}` then `emplace(*other)` (two variant steps, "
-    "each under step_refines_partial) against the single spec step; the two-step = one-step equality is compared, not proved",
 ]
 UNPROVED_OBSERVED = [
     "value categories (observed, not proved - a value-level Lean model cannot carry them): the reference kind (T&, T const&, T&&, "
